@@ -364,7 +364,11 @@ Definition n_sort (l : list N) : list N := fold_right n_insert [] l.
    o_when   : per LEnqueue of the script: 1-based number of the script step after which the
               command was first seen completed (0 = not during the script).
    o_nils   : RunCommand invocations that returned (nil, nil) (level 1 only).
-   o_crash  : 1 = the process running the core died (panic) while playing this script. *)
+   o_crash  : 1 = the process running the core died (panic) while playing this script.
+   o_timing : timed scripts only (one command with very many targets through the real queue,
+              SendFunc returning at once, live targets answering at once, the others silent):
+              per command (response timeout, time from Enqueue to the callback, time from Enqueue
+              to the LAST SendFunc invocation), in milliseconds; [] otherwise. *)
 Record c12_case := mkCase {
   i_script : list label;
   i_level : N;
@@ -375,7 +379,8 @@ Record c12_case := mkCase {
   o_leaks : N;
   o_when : list N;
   o_nils : N;
-  o_crash : N
+  o_crash : N;
+  o_timing : list (N * N * N)
 }.
 
 Definition enq_cmds (s : list label) : list command :=
@@ -406,6 +411,20 @@ Fixpoint seen_from (holds : list N) (i : N) (st : state) (script : list label) (
     else seen_from holds (N.succ i) st2 r c
   end.
 
+(* ---------- time bound ---------- *)
+(* Time is not part of the model; what the model says about it is that no worker ever waits for
+   another worker (every worker's moves are enabled by its own state alone, see
+   C12_no_worker_waits_for_another): all targets are sent to at once and all timers run side by
+   side, so a command whose SendFunc calls return at once completes one response timeout after
+   Enqueue whatever the number of targets.  Evaluated on the measured times with a slack of two
+   thirds of the timeout: 13 = completed later than that, 14 = a target was only sent to after
+   half the timeout had passed (i.e. it had to wait for other targets). *)
+Definition timing_code (x : N * N * N) : N :=
+  let '(tmo, done, lastsend) := x in
+  if tmo + (2 * tmo) / 3 <? done then 13
+  else if tmo / 2 <? lastsend then 14
+  else 0.
+
 Definition model_when (holds : list N) (script : list label) : list N :=
   map (seen_from holds 0 (settle init) script) (enq_cmds script).
 
@@ -416,7 +435,8 @@ Definition corr12 (c : c12_case) : bool :=
   (Nlen (s_pending st) =? o_pending c) &&
   (Nlen (s_offers st) =? o_leaks c) &&
   list_eqb N.eqb (model_when (i_holds c) (i_script c)) (o_when c) &&
-  (o_nils c =? 0) && (o_crash c =? 0).
+  (o_nils c =? 0) && (o_crash c =? 0) &&
+  forallb (fun x => timing_code x =? 0) (o_timing c).
 
 (* ---------- the property evaluated on what the implementation did ---------- *)
 (* Uses only the script (what the environment did) and the observation; never [step]. *)
@@ -525,10 +545,13 @@ Definition expected_sends (s : list label) : list (N * N) :=
    failure, 6 time-out reported although the timer was never allowed to fire (reply lost),
    7 unclassifiable entry, 8 SendFunc calls differ from one per target, 9 pending not empty,
    10 completed before its own targets answered / failed / timed out, 11 a RunCommand returned
-   neither a response nor an error, 12 the core crashed *)
+   neither a response nor an error, 12 the core crashed, 13 completed later than its response
+   timeout allows, 14 a target was sent to only after half the timeout (waited for others) *)
 Definition mon12 (c : c12_case) : N :=
   if negb (o_crash c =? 0) then 12
   else if negb (o_nils c =? 0) then 11
+  else if negb (first_code (map timing_code (o_timing c)) =? 0)
+       then first_code (map timing_code (o_timing c))
   else
   let y := mon_whens (i_script c) (enq_cmds (i_script c)) (o_when c) in
   if negb (y =? 0) then y else
@@ -581,7 +604,7 @@ Definition tag12 (c : c12_case) : N :=
   N.lor (tag_run (i_holds c) 0 (settle init) s 0)
   (N.lor (if (1 <? Nlen cs) then 32 else 0)
   (N.lor (if negb (Nlen (s_offers (hrunh (i_holds c) s)) =? 0) then 64 else 0)
-  (N.lor (if i_level c =? 0 then 0 else 512)
+  (N.lor (if i_level c =? 0 then 0 else if i_level c =? 1 then 512 else 1024)
          (if forallb (fun c => nodupb N.eqb (c_targets c) && negb (Nlen (c_targets c) =? 0)) cs
           then 0 else 128)))).
 
